@@ -193,6 +193,24 @@ func runC09(c *core.Ctx) {
 	})
 	checkMaxCountsTable(c)
 
+	// which messages get the full-data ↔ root check: a false answer means no data attached, or a type
+	// that carries none (neither proposal nor round change nor a decided commit)
+	if f := fn(c, "C09-R2", mvPkg+".(*messageValidator).hasFullData"); f != nil {
+		a := c.E.Analyze(f)
+		exits, _ := a.Exits("ret=false")
+		for i, ex := range exits {
+			_, empty := ex.Facts.Has("eq(0, len(p1.FullData))")
+			_, np := ex.Facts.Has("ne(0:MessageType, p1.Message.MsgType)")
+			_, nr := ex.Facts.Has("ne(3:MessageType, p1.Message.MsgType)")
+			_, nd := ex.Facts.Has("F(" + mvM + "isDecidedMessage(p0, p1))")
+			c.Decide(empty || (np && nr && nd), "C09-R2", fmt.Sprintf("hasFullData|false exit %d", i+1), c.P.Pos(ex.Ret.Pos()), "no data, or neither proposal / round change / decided",
+				"hasFullData answers false for a message that may be a proposal, a round change or a decided commit with data attached: its full data would skip the root check")
+		}
+		c.Min("C09-R2", len(exits), 2, "false exits of hasFullData")
+	}
+	ensures(c, "C09-R2", mvPkg+".(*messageValidator).isDecidedMessage", "ret=false", []Req{
+		{"not-a-multi-signer-commit", "ne(2:MessageType, p1.Message.MsgType) || le(len(p1.Signers), 1)", "a commit with more than one signer is a decided message"},
+	})
 	// "quorum-sized commit" is measured with Share.Quorum: every share the validator reads got it as 2f+1
 	checkQuorumStores(c, "C09-R2")
 
